@@ -84,8 +84,17 @@ def emitter_widths(ctx):
 
 
 def push_const_table(ctx):
-    """opcode -> operand bytes, from the branches of yr_parser_emit_push_const"""
+    """opcode -> operand bytes, from the branches of yr_parser_emit_push_const.  The
+    opcode buffer and its length are whatever the function hands to the arena write."""
     f = ctx.fn('yr_parser_emit_push_const', 'libyara/parser.c')
+    buf = ln = None
+    for c in f.calls():
+        if c.get('callee') == 'yr_arena_write_data':
+            a = f.call_args(c)
+            x, y = cu.strip_casts(f, a[2]), cu.strip_casts(f, a[3])
+            if x is not None and x['k'] == 'ref' and y is not None and y['k'] == 'ref':
+                buf, ln = x['name'], y['name']
+    ctx.require(buf is not None, 'yr_parser_emit_push_const: no arena write of a local opcode buffer')
     table = {}
     for n in f.all_nodes():
         if n['k'] != 'bin' or n['op'] != '=':
@@ -94,7 +103,7 @@ def push_const_table(ctx):
         if lhs is None or lhs['k'] != 'sub':
             continue
         b, i = f.kid(lhs, 0), f.kid(lhs, 1)
-        if b is None or b['k'] != 'ref' or b['name'] != 'opcode' or cu.const_of(i) != 0:
+        if b is None or b['k'] != 'ref' or b['name'] != buf or cu.const_of(i) != 0:
             continue
         op = cu.const_of(f.kid(n, 1))
         if op is None:
@@ -105,7 +114,7 @@ def push_const_table(ctx):
             for s in f.kids(comp):
                 if s['k'] == 'bin' and s['op'] == '+=':
                     l = f.kid(s, 0)
-                    if l is not None and l['k'] == 'ref' and l['name'] == 'opcode_len':
+                    if l is not None and l['k'] == 'ref' and l['name'] == ln:
                         w += cu.const_of(f.kid(s, 1)) or 0
         table[op] = (w, f.loc(n))
     ctx.require(len(table) >= 4, 'yr_parser_emit_push_const: opcode table not recognised')
@@ -168,16 +177,24 @@ def operator_opcodes(ctx):
     prog = ctx.prog
     f = ctx.fn('_yr_parser_operator_to_opcode', 'libyara/parser.c')
     bases, offs = set(), set()
+    # the variable whose value the function returns
+    OPV = None
+    for n in f.all_nodes():
+        if n['k'] == 'ret' and n.get('c'):
+            e = cu.strip_casts(f, f.kid(n, 0))
+            if e is not None and e['k'] == 'ref':
+                OPV = e['name']
+    ctx.require(OPV is not None, '_yr_parser_operator_to_opcode returns no variable')
     for n in f.all_nodes():
         if n['k'] == 'bin' and n['op'] == '=':
             l = f.kid(n, 0)
-            if l is not None and l['k'] == 'ref' and l['name'] == 'opcode':
+            if l is not None and l['k'] == 'ref' and l['name'] == OPV:
                 c = cu.const_of(f.kid(n, 1))
                 if c:
                     bases.add(c)
         if n['k'] == 'bin' and n['op'] == '+=':
             l = f.kid(n, 0)
-            if l is not None and l['k'] == 'ref' and l['name'] == 'opcode':
+            if l is not None and l['k'] == 'ref' and l['name'] == OPV:
                 c = cu.const_of(f.kid(n, 1))
                 if c is not None:
                     offs.add(c)
@@ -371,11 +388,15 @@ def handler_widths(ctx, vmf, labels):
             break
     results = set()
     post = _post_switch_block(vmf, sw)
+    from ..vmroles import vm_roles
+    VR = vm_roles(ctx.prog, vmf)
+    IP, STOP = VR.ip, VR.stop
+    ctx.require(IP is not None and STOP is not None, 'instruction pointer / stop flag of the VM not identified')
 
     def step(n, facts):
         if n['k'] == 'bin' and n['op'] in ('+=', '='):
             l = vmf.kid(n, 0)
-            if l is not None and l['k'] == 'ref' and l['name'] == 'ip':
+            if l is not None and l['k'] == 'ref' and l['name'] == IP:
                 r = cu.strip_casts(vmf, vmf.kid(n, 1))
                 w = [x[1] for x in facts if x[0] == 'w'][0]
                 rest = frozenset(x for x in facts if x[0] != 'w')
@@ -385,15 +406,21 @@ def handler_widths(ctx, vmf, labels):
                         return rest | {('w', None)}
                     return rest | {('w', None if w is None else w + c)}
                 if r is not None and r['k'] == 'call' and r.get('callee') == 'jmp_if':
-                    cond = vmf.show(vmf.call_args(r)[0])
+                    carg = vmf.call_args(r)[0]
+                    cval = cu.const_of(cu.strip_casts(vmf, carg))
+                    if cval is not None and cval != 0:
+                        return None     # jmp_if(true, ..): this path always jumps
+                    if cval == 0:
+                        return rest | {('w', None if w is None else w + 4)}
+                    cond = vmf.show(carg)
                     return rest | {('w', None if w is None else w + 4), ('nojump', cond)}
                 return rest | {('w', None)}
-            if l is not None and l['k'] == 'ref' and l['name'] == 'stop' and n['op'] == '=':
+            if l is not None and l['k'] == 'ref' and l['name'] == STOP and n['op'] == '=':
                 if cu.const_of(vmf.kid(n, 1)) == 1:
                     return facts | {('stop', 1)}
         if n['k'] == 'un' and n['op'] in ('post++', '++'):
             l = vmf.kid(n, 0)
-            if l is not None and l['k'] == 'ref' and l['name'] == 'ip':
+            if l is not None and l['k'] == 'ref' and l['name'] == IP:
                 w = [x[1] for x in facts if x[0] == 'w'][0]
                 rest = frozenset(x for x in facts if x[0] != 'w')
                 return rest | {('w', None if w is None else w + 1)}
@@ -527,6 +554,9 @@ def r4_3(ctx):
     prog = ctx.prog
     vmf, vm = vm_groups(ctx)
     undef = prog.macro_value('YR_UNDEFINED')
+    from ..vmroles import vm_roles
+    REGS = set(vm_roles(prog, vmf).regs)
+    ctx.require(len(REGS) >= 2 or ctx.fixture, 'operand registers of the VM not identified')
     n_checked = 0
     for op in sorted(vm):
         labels, stmts = vm[op]
@@ -545,7 +575,7 @@ def r4_3(ctx):
 
         def reg_of(n):
             n = cu.strip_casts(vmf, n)
-            if n is not None and n['k'] == 'ref' and n['name'] in ('r1', 'r2', 'r3', 'r4'):
+            if n is not None and n['k'] == 'ref' and n['name'] in REGS:
                 return n['name']
             return None
 
